@@ -81,7 +81,10 @@ def check_stream(r, case, wd, want_digest=False):
             else:
                 diff = np.nonzero(x != y)[0]
                 what = "recon != decode at display index %d: %d samples differ, first at offset %d (recon %d, decoded %d)" % (k, diff.size, diff[0], x[diff[0]], y[diff[0]])
-            viol.append(dict(key="C01|recon-mismatch", what=what))
+            sub = "size"
+            if x.size == y.size:
+                sub = "zero-recon" if not x.any() else ("few" if diff.size * 100 < x.size else "many")
+            viol.append(dict(key="C01|recon-mismatch:" + sub, what=what))
             break
     return viol, info
 
